@@ -20,6 +20,9 @@ struct PF {
     v: i64,
     /// (index of the imported file, spelling of the path, syntactic position)
     imports: Vec<(usize, String, String)>,
+    /// files that share a trace id (and everything else) are byte-identical twins
+    #[serde(default)]
+    trace: Option<String>,
 }
 
 const POSITIONS: [&str; 13] = [
@@ -51,7 +54,19 @@ fn spell(from: &str, to: &str, t: &mut Tape) -> String {
     }
     segs.push(file.to_string());
     let mut s = segs.join("/");
-    match t.choice(4) {
+    match t.choice(5) {
+        4 => {
+            // an absolute spelling, with or without redundant segments (@ROOT@ = the project root)
+            s = match t.choice(4) {
+                0 => format!("@ROOT@/{}", to),
+                1 => format!("@ROOT@/./{}", to),
+                2 => format!("@ROOT@//{}", to),
+                _ => match td.first() {
+                    Some(first) => format!("@ROOT@/{}/../{}", first, to),
+                    None => format!("@ROOT@/./{}", to),
+                },
+            };
+        }
         0 => {}
         1 => s = format!("./{}", s),
         2 => {
@@ -81,9 +96,16 @@ fn import_value_expr(path: &str) -> String {
     format!("(import \"{}\").total", path)
 }
 
+fn trace_id(f: &PF, idx: usize) -> String {
+    match &f.trace {
+        Some(t) => format!("trace-of-file-{}", t),
+        None => format!("trace-of-file-{}", idx),
+    }
+}
+
 fn render_file(f: &PF, idx: usize) -> String {
     let mut s = String::new();
-    s.push_str(&format!("let t = TRACE \"trace-of-file-{}\";\n", idx));
+    s.push_str(&format!("let t = TRACE \"{}\";\n", trace_id(f, idx)));
     s.push_str(&format!("let v = {};\n", f.v));
     let mut terms = vec!["v".to_string()];
     for (k, (_, path, pos)) in f.imports.iter().enumerate() {
@@ -128,7 +150,7 @@ impl C09 {
         for i in 0..n {
             let d = dirs[t.choice(dirs.len())];
             let rel = if d.is_empty() { format!("f{}.ucg", i) } else { format!("{}/f{}.ucg", d, i) };
-            files.push(PF { rel, v: 1 << i, imports: vec![] });
+            files.push(PF { rel, v: 1 << i, imports: vec![], trace: None });
         }
         // DAG: file i imports later files (entry = file 0)
         for i in 0..n {
@@ -138,6 +160,20 @@ impl C09 {
                 let sp = spell(&files[i].rel, &files[j].rel, t);
                 let pos = POSITIONS[t.choice(POSITIONS.len())].to_string();
                 files[i].imports.push((j, sp, pos));
+            }
+        }
+        // byte-identical twins in two directories, each importing its own ./leaf.ucg
+        if t.chance(1, 5) {
+            let base = files.len();
+            for (k, d) in ["tw1", "tw2"].iter().enumerate() {
+                files.push(PF { rel: format!("{}/leaf.ucg", d), v: 1000 * (k as i64 + 1), imports: vec![], trace: None });
+            }
+            for (k, d) in ["tw1", "tw2"].iter().enumerate() {
+                files.push(PF { rel: format!("{}/twin.ucg", d), v: 0, imports: vec![(base + k, "./leaf.ucg".to_string(), "top-level-let".to_string())], trace: Some("twin".to_string()) });
+            }
+            for k in 0..2 {
+                let sp = spell(&files[0].rel.clone(), &files[base + 2 + k].rel.clone(), t);
+                files[0].imports.push((base + 2 + k, sp, "top-level-let".to_string()));
             }
         }
         // make every file reachable from the entry so that expectations are interesting
@@ -188,6 +224,12 @@ impl C09 {
         if two_spellings {
             o.class("two-spellings-of-one-file");
         }
+        if files.iter().any(|f| f.trace.is_some()) {
+            o.class("byte-identical-twins");
+        }
+        if reach.iter().any(|r| files[*r].imports.iter().any(|(_, sp, _)| sp.starts_with("@ROOT@"))) {
+            o.class("absolute-spelling");
+        }
         // expected total of the entry (DAG only)
         fn total(files: &[PF], i: usize) -> i64 {
             files[i].v + files[i].imports.iter().map(|(j, _, _)| total(files, *j)).sum::<i64>()
@@ -200,7 +242,7 @@ impl C09 {
         for (i, f) in files.iter().enumerate() {
             let p = root.join(&f.rel);
             std::fs::create_dir_all(p.parent().unwrap()).expect("mkdir");
-            std::fs::write(&p, render_file(f, i)).expect("write");
+            std::fs::write(&p, render_file(f, i).replace("@ROOT@", &root.to_string_lossy())).expect("write");
         }
         let entry_abs = root.join(&files[0].rel);
         let entry_dir = entry_abs.parent().unwrap().to_path_buf();
@@ -264,16 +306,13 @@ impl C09 {
                 o.fail("C09/wrong-value", ctx(format!("expected artifact {} but got {:?}", want, got.map(|g| g.to_string()))));
                 break;
             }
-            // evaluated once: one TRACE line per reachable file
+            // evaluated once: one TRACE line per reachable file (byte-identical twins share an id)
             for i in &reach {
-                let id = format!("trace-of-file-{}\"", i);
-                let id2 = format!("trace-of-file-{} ", i);
-                let n = r.stderr.lines().filter(|l| l.starts_with("TRACE") && (l.contains(&id) || l.contains(&id2) || l.contains(&format!("trace-of-file-{}", i)) && !l.contains(&format!("trace-of-file-{}0", i)))).filter(|l| {
-                    // exact id match (file-1 vs file-10 cannot clash: at most 8 files)
-                    l.contains(&format!("trace-of-file-{}", i))
-                }).count();
-                if n != 1 {
-                    o.fail("C09/evaluated-more-than-once", ctx(format!("{} should be evaluated exactly once per build but its TRACE line appears {} time(s)", files[*i].rel, n)));
+                let id = trace_id(&files[*i], *i);
+                let expect = reach.iter().filter(|r| trace_id(&files[**r], **r) == id).count();
+                let n = r.stderr.lines().filter(|l| l.starts_with("TRACE") && (l.contains(&format!("{}\"", id)) || l.contains(&format!("{} ", id)) || l.ends_with(&id))).count();
+                if n != expect {
+                    o.fail("C09/evaluated-more-than-once", ctx(format!("{} should be evaluated exactly once per build but its TRACE line appears {} time(s), expected {}", files[*i].rel, n, expect)));
                     break;
                 }
             }
